@@ -141,3 +141,14 @@ claim("C03",
       "one line each (a lower bound). Known findings: C03-auto-header-unreserved, C03-heading-rows-underbudgeted.",
       "Rocq proof (greedy-loop invariant, Q/Z arithmetic) + role-weighted differential check with excess decomposition",
       "DESIGN.md section 6 C03")
+claim("C19",
+      "Theorems (Coq): one illegal entry anywhere in a scalar / vector / matrix value makes the model's construction refuse "
+      "it (unbounded, by position); acceptance iff every entry legal; non-positive numbers never legal; structural rules; "
+      "legal sets come from the regenerated tables. Against the implementation: for every validated field of every "
+      "component, invalid values at random positions inside scalar / list / nested-list forms mixed with valid ones must "
+      "raise ValueError (FileNotFoundError for a missing figure) and valid ones must be accepted; the model's accept / "
+      "reject decision is computed by the extracted Validate.accepts on the same flattened value.",
+      "pydantic's type coercion is outside the model (trials are well-typed); keyword sets that are literals in the source "
+      "(orientation, placement, pageby_row, fig_align, fig_pos) are hand-modelled and tied by the differential check only.",
+      "Rocq proof (forallb/existsb lemmas over regenerated legal sets) + malformed-input differential stream",
+      "DESIGN.md section 6 C19")
